@@ -46,6 +46,10 @@ def ckey(s):
     raise ValueError('unknown ExtGState key %r' % s)
 
 
+def cgsval(ca, CA):
+    return '(%s, %s)' % (copt(ca, zlit), copt(CA, zlit))
+
+
 def cop(o):
     k = o[0]
     if k == 'push':
@@ -87,7 +91,7 @@ def ctok(t):
     if k in ('q', 'Q', 'BT', 'ET', 'BMC', 'BDC', 'EMC'):
         return 'T' + k
     if k == 'gs':
-        return '(Tgs %s)' % ckey(t[1])
+        return '(Tgs %s %s)' % (ckey(t[1]), cgsval(t[2], t[3]))
     if k == 'rg':
         return '(Trg %s %s)' % (cb(t[1]), ccolor(t[2]))
     if k == 'scn':
@@ -121,7 +125,7 @@ def cout(o):
     return ('(Some (iomk %s %s %s %s %s %s %s %s %s %s))' % (
         clist(ctok(t) for t in o['toks']), clist(cmat(m) for m in o['ctms']),
         copt(o['col'], ccolor), copt(o['cols'], ccolor), copt(o['alpha'], ckey), copt(o['alphas'], ckey),
-        copt(o['font'], cfont), copt(o['ofont'], cfont), clist(ckey(k) for k in o['keys']), zlit(o['nmark'])))
+        copt(o['font'], cfont), copt(o['ofont'], cfont), clist('(%s, %s)' % (ckey(k[0]), cgsval(k[1], k[2])) for k in o['keys']), zlit(o['nmark'])))
 
 
 def ccase(c, o):
